@@ -37,6 +37,8 @@ var States = map[string][]string{
 	"removing":        {"x.ab", "d", "k.rm"},
 	"after-reorg":     {"x.pa", "d", "r.1.E", "d"},
 	"staking-binding": {"x.bo", "d", "x.st", "d", "x.bn", "d", "x.e", "d"},
+	// unconfirmed staking and binding deposits to the wallet (history views list pending entries)
+	"pending-deposits": {"x.pa", "d", "y.st", "y.bd"},
 	// between two rescan batches of an import (one height per batch): the restored wallet is
 	// still importing but its first credit is already recorded
 	"importing-credit-recorded": {"b.1", "x.pc0", "d", "x.e", "d", "i.m0", "i.s", "i.s", "i.s", "i.s"},
